@@ -32,8 +32,10 @@ def would_change(op, prev_tasks):
 
 
 def snap_key(o):
-    return json.dumps([o["store"], sorted(json.dumps(t) for t in o["tasks"]),
-                       {k: sorted(json.dumps(e) for e in v) for k, v in o["indices"].items()}], sort_keys=True)
+    return json.dumps([o["store"], sorted(json.dumps([t[0], t[1], sorted(map(json.dumps, t[2])), sorted(map(json.dumps, t[3]))]) for t in o["tasks"]),
+                       # the order inside an index entry follows set iteration (the hash of an expression node can be its address):
+                       # entries are compared as multisets
+                       {k: sorted(json.dumps([e[0], sorted(map(json.dumps, e[1]))]) for e in v) for k, v in o["indices"].items()}], sort_keys=True)
 
 
 def oracle(cases, obs):
